@@ -1,0 +1,65 @@
+//go:build verif
+
+package s3
+
+// Contracts for govc (see /verif/DESIGN.md and /repo/verif_contracts.go for the syntax).
+// Comment-only; compiled only under the build tag `verif`.
+
+//@ modelstruct s3.GetObjectInput s3.PutObjectInput s3.GetObjectOutput
+
+// The bucket as ghost state: s3Has[bucket][key], s3Data[bucket][key].
+//@ ghost G.s3Has (Array Bytes (Array Bytes Bool))
+//@ ghost G.s3Data (Array Bytes (Array Bytes Bytes))
+//@ smt (define-fun ohas ((h Heap) (b Bytes) (k Bytes)) Bool (select (select (h.G.s3Has h) b) k))
+//@ smt (define-fun odata ((h Heap) (b Bytes) (k Bytes)) Bytes (select (select (h.G.s3Data h) b) k))
+// what a reader (io.Reader value) yields when read to the end
+//@ smt (declare-fun rdata (Int) Bytes)
+//@ smt (define-fun readerData ((r Any)) Bytes (rdata (a.val r)))
+//@ smt (define-fun OthersSameS3 ((h0 Heap) (h Heap) (b Bytes) (k Bytes)) Bool (forall ((b2 Bytes) (k2 Bytes)) (! (=> (not (and (= b2 b) (= k2 k))) (and (= (ohas h b2 k2) (ohas h0 b2 k2)) (= (odata h b2 k2) (odata h0 b2 k2)))) :pattern ((ohas h b2 k2)) :pattern ((odata h b2 k2)))))
+
+//@ assumption A-s3: the S3 client behaves as the abstract contracts of S3Interface state (a successful GET returns the object's bytes, a GET of a missing key fails, a successful PUT stores the body bytes atomically under bucket/key and touches nothing else); io.ReadAll returns everything the reader yields; bytes.NewReader yields its argument
+
+//@ abstract aws.String (v) -> (r)
+//@ modifies W Box.Bytes@fresh
+//@ ensures def (and (> r W0) (<= r W) (= (Box.Bytes H r) v))
+
+//@ abstract bytes.NewReader (b) -> (r)
+//@ modifies W
+//@ ensures def (and (> r W0) (<= r W) (= (rdata r) (bs.val b)))
+
+//@ abstract io.ReadAll (r) -> (b err)
+//@ pure
+//@ ensures ok (=> (= err anil) (= (bs.val b) (readerData r)))
+
+//@ abstract S3Interface.GetObjectWithContext (s ctx input opts) -> (out err)
+//@ modifies W s3.GetObjectOutput.*@fresh
+//@ requires input (and (> input 0) (not (= (s3.GetObjectInput.Bucket H input) 0)) (not (= (s3.GetObjectInput.Key H input) 0)))
+//@ ensures ok (=> (= err anil) (and (> out 0) (ohas H0 (deref.Bytes H0 (s3.GetObjectInput.Bucket H0 input)) (deref.Bytes H0 (s3.GetObjectInput.Key H0 input))) (not (isNil (s3.GetObjectOutput.Body H out))) (= (readerData (s3.GetObjectOutput.Body H out)) (odata H0 (deref.Bytes H0 (s3.GetObjectInput.Bucket H0 input)) (deref.Bytes H0 (s3.GetObjectInput.Key H0 input))))))
+//@ ensures missing (=> (not (ohas H0 (deref.Bytes H0 (s3.GetObjectInput.Bucket H0 input)) (deref.Bytes H0 (s3.GetObjectInput.Key H0 input)))) (isErr err))
+
+//@ abstract S3Interface.PutObjectWithContext (s ctx input opts) -> (out err)
+//@ modifies W G.s3Has G.s3Data
+//@ requires input (and (> input 0) (not (= (s3.PutObjectInput.Bucket H input) 0)) (not (= (s3.PutObjectInput.Key H input) 0)))
+//@ ensures ok (=> (= err anil) (and (ohas H (deref.Bytes H0 (s3.PutObjectInput.Bucket H0 input)) (deref.Bytes H0 (s3.PutObjectInput.Key H0 input))) (= (odata H (deref.Bytes H0 (s3.PutObjectInput.Bucket H0 input)) (deref.Bytes H0 (s3.PutObjectInput.Key H0 input))) (readerData (s3.PutObjectInput.Body H0 input)))))
+//@ ensures fail (=> (isErr err) (and (= (G.s3Has H) (G.s3Has H0)) (= (G.s3Data H) (G.s3Data H0))))
+//@ ensures frame (OthersSameS3 H0 H (deref.Bytes H0 (s3.PutObjectInput.Bucket H0 input)) (deref.Bytes H0 (s3.PutObjectInput.Key H0 input)))
+
+//@ func (*Persist).Load
+//@ tags C18
+//@ modifies W Box.Bytes@fresh s3.GetObjectInput.*@fresh s3.GetObjectOutput.*@fresh
+//@ requires nn (and (> p 0) (not (isNil (Persist.s3 H p))))
+//@ ensures ok [C18] (=> (= err anil) (and (ohas H0 (Persist.BucketName H0 p) (cat (Persist.Prefix H0 p) name)) (= (bs.val result0) (odata H0 (Persist.BucketName H0 p) (cat (Persist.Prefix H0 p) name)))))
+//@ ensures missing [C18] (=> (not (ohas H0 (Persist.BucketName H0 p) (cat (Persist.Prefix H0 p) name))) (isErr err))
+
+//@ func (Persist).Store
+//@ tags C18
+//@ modifies W G.s3Has G.s3Data Box.Bytes@fresh s3.PutObjectInput.*@fresh Persist.*@fresh
+//@ requires nn (not (isNil (S_Persist.s3 p)))
+//@ ensures ok [C18] (=> (= err anil) (and (ohas H (S_Persist.BucketName p) (cat (S_Persist.Prefix p) name)) (= (odata H (S_Persist.BucketName p) (cat (S_Persist.Prefix p) name)) (bs.val b))))
+//@ ensures fail [C18] (=> (isErr err) (and (= (G.s3Has H) (G.s3Has H0)) (= (G.s3Data H) (G.s3Data H0))))
+//@ ensures frame [C18] (OthersSameS3 H0 H (S_Persist.BucketName p) (cat (S_Persist.Prefix p) name))
+
+//@ func (Persist).NodeURLPrefix
+//@ tags C18
+//@ pure
+//@ ensures def (= result (S_Persist.nodeURLPrefix p))
